@@ -1,7 +1,7 @@
 #!/usr/bin/env python3
 """refactor_matrix.py <dir with *.diff> ...: apply each behaviour-preserving refactoring to a scratch copy of /repo and run
 every claimed check; anything but exit 0 is a false alarm (or a broken check) to be fixed.  Writes refactors/MATRIX.json."""
-import json, os, subprocess, sys, shutil, glob, tempfile
+import json, os, subprocess, sys, shutil, glob, tempfile, fcntl
 V = '/verif'
 man = json.load(open(V + '/MANIFEST.json'))
 checks = [c['property_id'] for c in man['checks']]
@@ -42,7 +42,9 @@ for p in patches:
         res[name] = {'alarms': alarms, 'broken': broken}
     done_here.add(name)
     print(name, 'alarms', sorted(alarms), 'broken', sorted(broken), flush=True)
-    cur = json.load(open(out_path)) if os.path.exists(out_path) else {}
-    cur.update({k: v for k, v in res.items() if k in done_here})
-    json.dump(cur, open(out_path, 'w'), indent=1, sort_keys=True)
+    with open(out_path + '.lock', 'w') as lk:
+        fcntl.flock(lk, fcntl.LOCK_EX)
+        cur = json.load(open(out_path)) if os.path.exists(out_path) else {}
+        cur.update({k: v for k, v in res.items() if k in done_here})
+        json.dump(cur, open(out_path, 'w'), indent=1, sort_keys=True)
 shutil.rmtree(work, ignore_errors=True)
